@@ -30,7 +30,7 @@ def q(name):
 QUICK = [
     fam("ops1", q("ops1")), fam("nums", q("nums")), fam("data", q("data")), fam("select", q("select")),
     fam("call", q("call")), fam("foppre", q("foppre")), fam("misc", q("misc")), fam("cast", q("cast")), fam("castdot", q("castdot")),
-    fam("moddef", q("moddef")), fam("dotuse", q("dotuse")), fam("conlet", q("conlet")), fam("sim", q("sim"), (2500, 70)),
+    fam("moddef", q("moddef")), fam("dotuse", q("dotuse")), fam("conlet", q("conlet")), fam("funcbody", q("funcbody")), fam("funcsel", q("funcsel")), fam("funcshadow", q("funcshadow")), fam("sim", q("sim"), (2500, 70)),
 ]
 THOROUGH = QUICK[:-1] + [fam("sim", q("sim"), (60000, 80))]
 
@@ -43,8 +43,36 @@ def classify(msg):
     t = m.group(1) if m else msg[:80]
     t = re.split(r" but got|, got | got:", t)[0]
     t = re.sub(r"\{[^}]*\}|\[[^\]]*\]|\"[^\"]*\"|\d+", "_", t)
+    t = re.sub(r"'[^']*'", "'_'", t)
     t = re.sub(r"compatible with \w+", "compatible with _", t)
     return "checker:" + t.strip()[:70]
+
+
+def selects_two_fields_of_a_parameter(prog):
+    """some function body selects two different fields of one of its parameters (t.a ... t.b)"""
+    found = []
+
+    def sel(x, ps, acc):
+        if isinstance(x, list):
+            for y in x:
+                sel(y, ps, acc)
+        elif isinstance(x, dict):
+            if x.get("e") == "func":
+                inner = {}
+                sel(x["body"], ["".join(p) for p in x["ps"]], inner)
+                if any(len(v) >= 2 for v in inner.values()):
+                    found.append(True)
+                return
+            if x.get("e") == "bin" and x.get("op") == "dot" and x["l"].get("e") == "sym" and "".join(x["l"]["nm"]) in ps:
+                r = x["r"]
+                name = "".join(r["nm"]) if r.get("e") == "sym" else ("".join(r["v"]["s"]) if r.get("e") == "lit" and r["v"]["t"] == "str" else None)
+                if name is not None:
+                    acc.setdefault("".join(x["l"]["nm"]), set()).add(name)
+            for v in x.values():
+                if isinstance(v, (dict, list)):
+                    sel(v, ps, acc)
+    sel(prog, [], {})
+    return bool(found)
 
 
 def strip_pkg_text(v):
@@ -103,6 +131,8 @@ def work(h, cases):
             continue
         if bo[0] != "ok":
             key = "checker:select-of-mixed-types" if c.get("clean") == "union" else classify(bo[1])
+            if "not found in tuple" in bo[1] and selects_two_fields_of_a_parameter(c["prog"]):
+                key = "checker:parameter-pinned-to-its-first-selected-field"
             out.append({"status": "violation", "key": key, "text": text, "kind": "rejected",
                         "detail": {"build_error": bo[1][:400]}})
             continue
